@@ -549,6 +549,7 @@ static ares_status_t read_answers(ares_conn_t *conn, const ares_timeval_t *now)
   ares_status_t   status;
   ares_channel_t *channel = conn->server->channel;
   ares_array_t   *requeue = NULL;
+  ares_socket_t   fd      = conn->fd;
 
   /* Process all queued answers */
   while (1) {
@@ -586,6 +587,16 @@ static ares_status_t read_answers(ares_conn_t *conn, const ares_timeval_t *now)
 
     /* We finished reading this answer; process it */
     status = process_answer(channel, data, data_len, conn, now, &requeue);
+
+    /* Delivering the answer runs the request's completion callback, which may
+     * start a follow-up request (search, getaddrinfo, or the application
+     * itself).  If that request is written to this very connection and the
+     * write fails, the connection is torn down underneath us.  Make sure it
+     * still exists before touching it again. */
+    if (ares_conn_from_fd(channel, fd) != conn) {
+      goto cleanup;
+    }
+
     if (status != ARES_SUCCESS) {
       handle_conn_error(conn, ARES_TRUE, status);
       goto cleanup;
